@@ -49,7 +49,7 @@ def odd_structure(rng, root, L, mp):
     d = os.path.join(root, os.path.dirname(mp))
     kind = rng.choice(['hidden_dir_entry', 'ignored_manifest', 'hidden_manifest', 'data_and_manifest',
                        'corrupt_compressed', 'corrupt_compressed', 'now_ignored', 'files_file', 'odd_manifest_path',
-                       'self_reference', 'self_listing_sub', 'dup_lines_missing', 'sysfs_link'])
+                       'self_reference', 'self_listing_sub', 'dup_lines_missing', 'sysfs_link', 'binary_manifest'])
     subm = b'DATA f 1 SHA1 ' + _sha1(b'x').encode() + b'\n'
 
     def put(rel, data):
@@ -114,7 +114,7 @@ def odd_structure(rng, root, L, mp):
             return []
         if kind == 'self_listing_sub':
             # an unregistered sub-Manifest that lists itself, with another unregistered one below it
-            if put('sl/Manifest', b'DATA Manifest 0\n'):
+            if put('sl/Manifest', rng.choice([b'DATA Manifest 0\n', b'MANIFEST Manifest 0\n', b'MANIFEST Manifest 19 SHA1 00\n'])):
                 put('sl/deep/Manifest', b'')
                 put('sl/deep/f', b'x')
             return []
@@ -125,6 +125,11 @@ def odd_structure(rng, root, L, mp):
                 m_ = b'DATA a 1 SHA1 00\nDATA a 1 SHA1 00\n'
                 return ['MANIFEST dl/Manifest %d SHA1 %s' % (len(m_), _sha1(m_)), 'DATA dl/a 1 MD5 00']
             return []
+        if kind == 'binary_manifest':
+            # a file that merely has a Manifest name: binary, not even UTF-8
+            put('bm/Manifest', b'\x1f\x8b\x08broken\xff\xfe\x00')
+            put('bm/f', b'x')
+            return [] if rng.random() < 0.6 else ['MANIFEST bm/Manifest 13 SHA1 ' + _sha1(b'\x1f\x8b\x08broken\xff\xfe\x00')]
         if kind == 'sysfs_link':
             # a file whose st_size is not its length (sysfs), reached through a symlink
             for cand in ('/sys/kernel/warn_count', '/sys/devices/system/cpu/online', '/sys/kernel/uevent_seqnum'):
